@@ -27,6 +27,12 @@ def rand_class(rng):
                     lines[i] = lines[i].replace("Field(", "Field(immutable=True, ", 1).replace(", )", ")")
                 elif "=" not in lines[i]:
                     lines[i] = lines[i] + " = Field(immutable=True)"
+        # ... or Final, with or without an explicit Field
+        import re as _re
+        for i in range(2 if okw else 1, len(lines)):
+            m = _re.match(r"^(    \w+: )([^=]+?)( = .*)?$", lines[i])
+            if m and rng.random() < 0.1 and "Final" not in lines[i] and "immutable" not in lines[i]:
+                lines[i] = "%sFinal[%s]%s" % (m.group(1), m.group(2).strip(), m.group(3) or "")
         src2 = "\n".join(lines) + "\n"
         try:
             dyn.declare(src2)
@@ -362,6 +368,21 @@ def gen_cases(rng, ncls, per):
     return cases, srcs
 
 
+def declared_immutable(cls, f):
+    """immutability as the declaration states it (not as the library's own ParserField.immutable reports it): a Final annotation,
+    Field(immutable=True), or an immutable class"""
+    import typing
+    for klass in cls.__mro__:
+        ann = getattr(klass, "__dict__", {}).get("__annotations__", {}).get(f.attname)
+        if ann is not None:
+            if typing.get_origin(ann) is typing.Final or ann is typing.Final:
+                return True
+            break
+    if getattr(f.field, "immutable", False):
+        return True
+    return bool(getattr(cls.__options__, "immutable", False))
+
+
 # ---- the invariant itself, judged on the implementation ----
 def invariant_oracle(case):
     """after every step: required fields present, immutable fields unchanged, every present field value is what the field's
@@ -391,7 +412,7 @@ def invariant_oracle(case):
             no_out = f.always_no_output(opts)
             if f.is_required(opts) and not no_out and not present:
                 return "required field %r is missing" % f.attname
-            if f.immutable:
+            if declared_immutable(cls, f):
                 now = dict.get(x, f.name, unprovided) if dict_based else x.__dict__.get(f.attname, unprovided)
                 if repr(now) != repr(first.get(f.attname)):
                     return "immutable field %r changed: %r -> %r" % (f.attname, first.get(f.attname), now)
